@@ -1,5 +1,5 @@
 """C05 — unseen data is given fitted labels or rejected, never passed through."""
-from harness import k_api, k_qualitative, k_transform
+from harness import k_api, k_dtypes, k_qualitative, k_transform
 
 
 def obligations(tier):
@@ -7,6 +7,7 @@ def obligations(tier):
     return [
         k_api.obligation(tier, {"C05"}, "O5.2 end to end: after complete fits an unseen finite value gets a fitted label; unexpected NaN -> AssertionError naming the feature",
                          ["BinaryCarver", "Discretizer"], ns=[3] if quick else [3, 4], max_pats=6 if quick else 14),
+        k_dtypes.obligation(tier, "O5.4 numeric pandas dtypes at transform time (incl. nullable Int64/Float64 with pd.NA): fitted labels, or AssertionError naming the feature for unexpected missing values; output independent of the dtype"),
         k_transform.obligation(tier, {"C05"}, "O5.1 quantitative: every finite real gets a fitted label; unexpected NaN -> AssertionError naming the feature; empty/single-row frames"),
         k_qualitative.obligation(tier, {"C05"}, "O5.3 qualitative: unseen category -> default group or AssertionError naming the feature; NaN where none was fitted -> AssertionError"),
     ]
